@@ -3,10 +3,12 @@
    (formatter: codegen/ast.rs binding_strength / associativity / can_bind_left / keywords / identifier classes;
     parser: parser/expr.rs pratt levels and operator tokens), packaged by Model/FmtInst.v as F_prql / P_prql / I_prql.
 
-   Scope of the theorems: expressions (operators, ranges, calls with named arguments and aliases, pipelines in
-   parentheses, tuples, arrays, case) at unlimited width, at token level; identifiers, strings, integers, floats at
-   character level.  Line breaking, statement layout, types, lambdas and annotations are covered only by the
-   differential oracle of vplib/props/c14.py. *)
+   Scope of the theorems: expressions (operators, ranges, calls with named arguments, aliases at every position the
+   parser can produce one -- bare on tuple items, pipeline elements and positional arguments, in parentheses on operands,
+   range bounds, callees and named-argument values --, parameters in front of `..`, pipelines in parentheses, tuples,
+   arrays, case) at unlimited width, at token level; identifiers, strings, integers, floats at character level.
+   Line breaking, statement layout, types, lambdas and annotations are covered only by the differential oracle of
+   vplib/props/c14.py (for lambdas and annotations the forced context strengths are a table obligation here). *)
 From Coq Require Import List NArith ZArith Bool Arith.
 From PV Require Import Lib.ListX Model.FmtLit Model.FmtPratt Model.Fmt Model.FmtInst
   Proofs.FmtPrattProofs Proofs.FmtProofs Proofs.FmtLitProofs Proofs.FmtInstProofs Gen.GenCodegen.
@@ -26,8 +28,18 @@ Theorem fmt_compat : compat F_prql P_prql nbin nun = true.
 Proof. vm_compute. reflexivity. Qed.
 Print Assumptions fmt_compat.
 
-(* ---- expressions (Theta-1, instance 3), at full strength since commit a318687 (binary_position no longer leaks below
-        non-binary nodes; the former counterexample a + ((b ** c)..d) is Example ex_former_leak below).
+(* ---- positions outside the expression model: the context strength forced on a lambda body / case branch keeps a call
+        bare and parenthesises a lambda; the one forced on default values and annotation expressions parenthesises
+        calls, lambdas and aliased expressions (commit 95d15ad) *)
+Theorem fmt_position_tables : position_tables_ok = true.
+Proof. vm_compute. reflexivity. Qed.
+Print Assumptions fmt_position_tables.
+
+(* ---- expressions (Theta-1, instance 3), at full strength:
+        since commit a318687 binary_position no longer leaks below non-binary nodes (Example ex_former_leak);
+        since commits 95d15ad / 2a611aa `wf` admits an alias on every operand, range bound, callee and named-argument
+        value: the formatter parenthesises it there (`a + (x = b)`, `(x = f) a`, `f n:(x = a) b`);
+        since commit 1b7b9df a parameter that starts a range is kept apart from `..` (`($a)..b`, `-($a)..`).
    Generic in the tables: any formatter / parser tables that pass `compat` round-trip every well-formed tree. *)
 Theorem fmt_expr_roundtrip_generic : forall F T nb nu, compat F T nb nu = true ->
   forall e, wf e = true -> ops_ok nb nu e = true -> is_named e = false ->
@@ -94,8 +106,8 @@ Print Assumptions fmt_raw_string_roundtrip.
 (* ---- identifiers.  Table obligation on the generated classes / keyword lists (bare classes within the lexer's plain
         identifiers; every lexer keyword and true/false/null in both printers' reserved lists), then the two printers:
         display_ident_part (identifier expressions): full strength since commit 8417a86;
-        write_ident_part (aliases, parameters, declared names, argument names): every name except the wildcard `*`,
-        which valid_prql_ident still leaves bare (finding C14-ident-star-bare).
+        write_ident_part (aliases, parameters, declared names, argument names): full strength since commit 328740d
+        (valid_prql_ident no longer accepts the wildcard: a name spelled `*` keeps its backticks).
    Rust's char::is_alphabetic / is_alphanumeric enter only through their ASCII restriction and one inclusion. *)
 Theorem fmt_ident_tables : idtab_ok I_prql = true.
 Proof. vm_compute. reflexivity. Qed.
@@ -112,20 +124,13 @@ Section UnicodeClasses.
     lex_word is_alpha is_alnum I_prql (display_ident_part I_prql s ++ rest) = Some (WIdent s, rest).
   Proof. exact (display_ident_lexes is_alpha is_alnum ascii_alpha ascii_alnum alpha_alnum I_prql fmt_ident_tables). Qed.
 
-  (* full statement (FALSE, C14-ident-star-bare): the same without `is_star s = false` *)
-  Theorem fmt_ident_roundtrip_partial : forall s rest,
-    contains c_backtick s = false -> is_star s = false -> delim is_alnum rest ->
+  Theorem fmt_ident_roundtrip : forall s rest,
+    contains c_backtick s = false -> delim is_alnum rest ->
     lex_word is_alpha is_alnum I_prql (write_ident_part I_prql s ++ rest) = Some (WIdent s, rest).
   Proof. exact (write_ident_lexes is_alpha is_alnum ascii_alpha ascii_alnum alpha_alnum I_prql fmt_ident_tables). Qed.
 End UnicodeClasses.
 Print Assumptions fmt_expr_ident_roundtrip.
-Print Assumptions fmt_ident_roundtrip_partial.
-
-Theorem fmt_ident_roundtrip_refuted :
-  exists s, contains c_backtick s = false /\
-    lex_word ascii_alpha_f ascii_alnum_f I_prql (write_ident_part I_prql s ++ [32]) <> Some (WIdent s, [32]).
-Proof. exact write_ident_refuted. Qed.
-Print Assumptions fmt_ident_roundtrip_refuted.
+Print Assumptions fmt_ident_roundtrip.
 
 (* non-vacuity and regression: concrete trees satisfy the hypotheses; the former counterexamples now round-trip *)
 Example ex_wf_tree : wf_expr (EBin 5 (idn 97) (EUn 0 (idn 98))).
@@ -137,6 +142,18 @@ Example ex_roundtrip : parse_prql 40 (fmt_toks (ECall (idn 102) [ENamed [110] (i
 Proof. vm_compute. reflexivity. Qed.
 Example ex_former_quote_edge : fmt_string [39; 34] = [34; 39; 92; 34; 34] /\ lex_string (fmt_string [39; 34]) = Some ([39; 34], []).
 Proof. vm_compute. split; reflexivity. Qed.
+(* the positions repaired by commits 95d15ad, 2a611aa, 1b7b9df satisfy the hypotheses of fmt_expr_roundtrip, and parse back *)
+Example ex_alias_positions :
+  forallb (fun e => wf e && ops_ok nbin nun e && negb (is_named e)) alias_witnesses = true /\
+  map (fun e => parse_prql 40 (fmt_toks e)) alias_witnesses = map Some alias_witnesses.
+Proof. vm_compute. split; reflexivity. Qed.
+Example ex_alias_text : fmt_text (EBin 5 (idn 97) (EAlias [120] (idn 98))) = [97; 32; 43; 32; 40; 120; 32; 61; 32; 98; 41]   (* a + (x = b) *)
+  /\ fmt_text (ERng (par_atom 97) (idn 98)) = [40; 36; 97; 41; 46; 46; 98]                                                (* ($a)..b *)
+  /\ fmt_text (ERngL (EUn 0 (par_atom 97))) = [45; 40; 36; 97; 41; 46; 46].                                               (* -($a).. *)
+Proof. vm_compute. repeat split; reflexivity. Qed.
+Example ex_former_star : write_ident_part I_prql [42] = bt [42] /\
+  lex_word ascii_alpha_f ascii_alnum_f I_prql (write_ident_part I_prql [42] ++ [32]) = Some (WIdent [42], [32]).
+Proof. exact star_witness_lexes. Qed.
 Example ex_former_keyword_idents :
   display_ident_part I_prql w_true = bt w_true /\ write_ident_part I_prql [105; 109; 112; 111; 114; 116] = bt [105; 109; 112; 111; 114; 116]
   /\ display_ident_part I_prql [36; 97] = bt [36; 97].
